@@ -87,6 +87,14 @@ func (q *rtmp2MpegtsFilter) Push(msg base.RtmpMsg) {
 	}
 }
 
+// Flush releases the messages of a stream that ends before the filter has made its decision
+func (q *rtmp2MpegtsFilter) Flush() {
+	if q.done || len(q.data) == 0 {
+		return
+	}
+	q.drain()
+}
+
 // ---------------------------------------------------------------------------------------------------------------------
 
 func (q *rtmp2MpegtsFilter) drain() {
